@@ -877,6 +877,52 @@ def fam_kqdir(rnd, i, symlinks=False):
     return steps
 
 
+def fam_kqfault(rnd, i):
+    """kqueue: a directory entry that cannot be opened (dangling symbolic link) makes Add fail midway through the
+    directory listing; whatever was opened until then must be released by Remove / Close."""
+    w = "w1"
+    steps = [fs("mkdir", ("d1",))]
+    for n in rnd.sample(["a", "b", "c", "m"], rnd.randint(1, 3)):
+        steps.append(fs("create", ("d1", n)))
+    steps.append(fs("symlink", ("d1", rnd.choice(["z9", "k5", "a0"])), tgt={"abs": False, "c": ["nowhere"]}))
+    sp = rnd.choice(["rel", "abs"])
+    steps += [new(w, 0), call(w, "add", ("d1",), sp), {"s": "obs"}, call(w, "watchlist")]
+    if rnd.random() < 0.5:
+        steps += [call(w, "add", ("d1",), sp), {"s": "obs"}]
+    steps += [call(w, "remove", ("d1",), sp), {"s": "obs"}, call(w, "watchlist"), call(w, "close"), {"s": "drain"}, {"s": "obs"}]
+    return steps
+
+
+def fam_kqnested(rnd, i):
+    """kqueue: a directory and one of its subdirectories both watched by the user (parent first), the
+    subdirectory not empty when added; operations in both."""
+    w = "w1"
+    steps = [fs("mkdir", ("d1",)), fs("mkdir", ("d1", "s1")), fs("create", ("d1", "n1"))]
+    for n in rnd.sample(NAMES, rnd.randint(1, 3)):
+        steps.append(fs("create", ("d1", "s1", n)))
+    steps += [new(w, rnd.choice([0, 4])), call(w, "add", ("d1",), "rel"), {"s": "obs"}, call(w, "add", ("d1", "s1"), "rel"), {"s": "drain"}, {"s": "obs"}]
+    pend = rnd.random() < 0.4
+    used = set()
+    touched = False
+    for _ in range(rnd.randint(2, 8)):
+        d = rnd.choice([("d1",), ("d1", "s1")])
+        q = d + ("q%d" % rnd.randint(1, 9),)
+        if rnd.random() < 0.6 and q not in used:
+            used.add(q)
+            st = fs("create", q)
+        elif pend and touched:
+            continue                     # without a drain in between, at most one operation per existing entry (kevents merge)
+        else:
+            touched = True
+            st = fs(rnd.choice(["write", "chmod"]), ("d1", "n1"))
+        steps.append(st)
+        if not pend:
+            steps.append({"s": "drain"})
+    steps += [{"s": "drain"}, {"s": "obs"}, call(w, "watchlist"), call(w, "remove", ("d1", "s1"), "rel"), {"s": "obs"},
+              call(w, "remove", ("d1",), "rel"), {"s": "obs"}, call(w, "close"), {"s": "drain"}, {"s": "obs"}]
+    return steps
+
+
 def fam_kqsym(rnd, i):
     return fam_kqdir(rnd, i, symlinks=True)
 
@@ -1187,7 +1233,7 @@ FAMS = {
     "absorb": fam_absorb, "withops": fam_withops, "repoint": fam_repoint, "stall": fam_stall, "spell": fam_spell,
     "endwatch": fam_endwatch, "paced": fam_paced, "ovfstall": fam_ovfstall, "ovflate": fam_ovflate,
     "parmoves": fam_parmoves, "multix": fam_multix, "recurse": fam_recurse,
-    "kqdir": fam_kqdir, "kqsym": fam_kqsym, "kqburst": fam_kqburst, "kqcycle": fam_kqcycle,
+    "kqdir": fam_kqdir, "kqsym": fam_kqsym, "kqburst": fam_kqburst, "kqcycle": fam_kqcycle, "kqfault": fam_kqfault, "kqnested": fam_kqnested,
 }
 
 
